@@ -1085,6 +1085,7 @@ package flags
 //@   ensures ncalls(bufio.Reader.ReadLine) <= readBound(b)
 //@   ensures !is(err, *Error) && !is(err, *IniError)
 //@   ensures len(line) > 0 ==> transient(line)
+//@   ensures isPrefix ==> len(line) > 0 && err == nil
 //@ assumed func strings.SplitN(s string, sep string, n int) (r []string)
 //@   pure
 //@   ensures len(r) >= 1 && (n > 0 ==> len(r) <= n)
@@ -1099,16 +1100,20 @@ package flags
 //@ func readFullLine(reader *bufio.Reader) (s string, err error)
 //@   props C14 C04 C12 C13
 //@   loop 1 invariant[C12,C13] !transient(line) && unfold(catChunks(old(ncalls(bufio.Reader.ReadLine)), ncalls(bufio.Reader.ReadLine))) && string(line) == catChunks(old(ncalls(bufio.Reader.ReadLine)), ncalls(bufio.Reader.ReadLine))
-//@   ensures[C12,C13] unfold(catChunks(old(ncalls(bufio.Reader.ReadLine)), ncalls(bufio.Reader.ReadLine))) && err == nil ==> s == catChunks(old(ncalls(bufio.Reader.ReadLine)), ncalls(bufio.Reader.ReadLine))
+//@   ensures[C12,C13] unfold(catChunks(old(ncalls(bufio.Reader.ReadLine)), ncalls(bufio.Reader.ReadLine))) && err == nil ==> s == catChunks(old(ncalls(bufio.Reader.ReadLine)), ite(callres(bufio.Reader.ReadLine, ncalls(bufio.Reader.ReadLine) - 1, 2) == nil, ncalls(bufio.Reader.ReadLine), ncalls(bufio.Reader.ReadLine) - 1))
 //@   traced
 //@   requires reader != nil && ncalls(bufio.Reader.ReadLine) <= readBound(reader)
 //@   loop 1 invariant ncalls(bufio.Reader.ReadLine) <= readBound(reader)
 //@   loop 1 invariant[C14] forall(k, old(ncalls(bufio.Reader.ReadLine)), ncalls(bufio.Reader.ReadLine), callres(bufio.Reader.ReadLine, k, 1) && callres(bufio.Reader.ReadLine, k, 2) == nil)
 //@   loop 1 invariant[C14] ncalls(bufio.Reader.ReadLine) == old(ncalls(bufio.Reader.ReadLine)) ==> isnil(line)
+//@   loop 1 invariant[C14] ncalls(bufio.Reader.ReadLine) > old(ncalls(bufio.Reader.ReadLine)) ==> len(line) > 0
 //@   loop 1 decreases readBound(reader) - ncalls(bufio.Reader.ReadLine)
 //@   ensures[C14] err != nil ==> s == ""
-//@   ensures[C14] err == nil ==> !callres(bufio.Reader.ReadLine, ncalls(bufio.Reader.ReadLine) - 1, 1) && forall(k, old(ncalls(bufio.Reader.ReadLine)), ncalls(bufio.Reader.ReadLine) - 1, callres(bufio.Reader.ReadLine, k, 1))
-//@   ensures[C14] err == nil && ncalls(bufio.Reader.ReadLine) == old(ncalls(bufio.Reader.ReadLine)) + 1 ==> s == string(callres(bufio.Reader.ReadLine, old(ncalls(bufio.Reader.ReadLine)), 0))
+// (the end of the input is only reported when nothing of a line had been read: pieces that were read before
+// the input ended ARE the last line - a file need not end in a newline)
+//@   ensures[C14,C13] err != nil && err == io.EOF ==> ncalls(bufio.Reader.ReadLine) == old(ncalls(bufio.Reader.ReadLine)) + 1
+//@   ensures[C14] err == nil ==> (callres(bufio.Reader.ReadLine, ncalls(bufio.Reader.ReadLine) - 1, 2) == io.EOF || (callres(bufio.Reader.ReadLine, ncalls(bufio.Reader.ReadLine) - 1, 2) == nil && !callres(bufio.Reader.ReadLine, ncalls(bufio.Reader.ReadLine) - 1, 1))) && forall(k, old(ncalls(bufio.Reader.ReadLine)), ncalls(bufio.Reader.ReadLine) - 1, callres(bufio.Reader.ReadLine, k, 1) && callres(bufio.Reader.ReadLine, k, 2) == nil)
+//@   ensures[C14] err == nil && ncalls(bufio.Reader.ReadLine) == old(ncalls(bufio.Reader.ReadLine)) + 1 ==> callres(bufio.Reader.ReadLine, old(ncalls(bufio.Reader.ReadLine)), 2) == nil && s == string(callres(bufio.Reader.ReadLine, old(ncalls(bufio.Reader.ReadLine)), 0))
 //@   ensures[C14] err != nil ==> err == callres(bufio.Reader.ReadLine, ncalls(bufio.Reader.ReadLine) - 1, 2)
 //@   ensures[C14] ncalls(bufio.Reader.ReadLine) > old(ncalls(bufio.Reader.ReadLine)) && ncalls(bufio.Reader.ReadLine) <= readBound(reader)
 //@   ensures !is(err, *Error) && !is(err, *IniError)
@@ -1127,6 +1132,7 @@ package flags
 //@   loop 1 decreases readBound(reader) - ncalls(bufio.Reader.ReadLine)
 //@   ensures[C13] err == nil ==> forall(j, 0, len(r.order), forall(k, 0, j, r.order[k] != r.order[j]))
 //@   at[C14] call append #2: name == strings.TrimSpace(line[1 : len(line)-1]) && len(name) != 0
+//@   at[C14] call append #3: len(name) != 0
 //@   at[C14] call append #3: len(line) > 0 && line[0] != '[' && line[0] != ';' && line[0] != '#' && contains(line, "=")
 //@   at[C12] call append #3: value == iniDecode(keyval[1]) && iniDecodeOK(keyval[1]) && name == strings.TrimSpace(keyval[0])
 //@   ensures[C14] err == nil ==> r != nil && !isnil(r.Sections) && r.File == filename
@@ -1347,16 +1353,16 @@ package flags
 //@   at[C01,C11] call convert #3: arg(0) == ite(len(strings.SplitN(val, ":", 2)) == 2, strings.SplitN(val, ":", 2)[1], "") && tick(elemconv)
 //@   at[C01,C11] call reflect.Value.SetMapIndex #1: ticks(keyconv) == 1 && ticks(elemconv) == 1
 //@   ensures[C01,C11] scalar && k == reflect.Map && err == nil ==> ncalls(reflect.Value.SetMapIndex) >= old(ncalls(reflect.Value.SetMapIndex)) + 1 && callarg(reflect.Value.SetMapIndex, ncalls(reflect.Value.SetMapIndex) - 1, 0) == retval
-//@   ensures[C11] um ==> err == snd(convertUnmarshal(val, retval)) && storesUnchanged()
-//@   ensures[C11] !um && tp == durationT() ==> (err == snd(time.ParseDuration(val))) && (err == nil ==> ncalls(reflect.Value.SetInt) == old(ncalls(reflect.Value.SetInt)) + 1 && callarg(reflect.Value.SetInt, old(ncalls(reflect.Value.SetInt)), 0) == retval && callarg(reflect.Value.SetInt, old(ncalls(reflect.Value.SetInt)), 1) == int64(fst(time.ParseDuration(val)))) && (err != nil ==> storesUnchanged())
-//@   ensures[C11] scalar && k == reflect.String ==> err == nil && ncalls(reflect.Value.SetString) == old(ncalls(reflect.Value.SetString)) + 1 && callarg(reflect.Value.SetString, old(ncalls(reflect.Value.SetString)), 0) == retval && callarg(reflect.Value.SetString, old(ncalls(reflect.Value.SetString)), 1) == val
-//@   ensures[C11] scalar && k == reflect.Bool && val == "" ==> err == nil && ncalls(reflect.Value.SetBool) == old(ncalls(reflect.Value.SetBool)) + 1 && callarg(reflect.Value.SetBool, old(ncalls(reflect.Value.SetBool)), 1)
-//@   ensures[C11] scalar && k == reflect.Bool && val != "" ==> err == snd(strconv.ParseBool(val)) && (err == nil ==> ncalls(reflect.Value.SetBool) == old(ncalls(reflect.Value.SetBool)) + 1 && callarg(reflect.Value.SetBool, old(ncalls(reflect.Value.SetBool)), 0) == retval && callarg(reflect.Value.SetBool, old(ncalls(reflect.Value.SetBool)), 1) == fst(strconv.ParseBool(val))) && (err != nil ==> storesUnchanged())
-//@   ensures[C11] scalar && isIntKind(k) && snd(getBase(options, 10)) != nil ==> err == snd(getBase(options, 10)) && storesUnchanged()
-//@   ensures[C11] scalar && isIntKind(k) && snd(getBase(options, 10)) == nil ==> err == snd(strconv.ParseInt(val, fst(getBase(options, 10)), tp.Bits())) && (err == nil ==> ncalls(reflect.Value.SetInt) == old(ncalls(reflect.Value.SetInt)) + 1 && callarg(reflect.Value.SetInt, old(ncalls(reflect.Value.SetInt)), 0) == retval && callarg(reflect.Value.SetInt, old(ncalls(reflect.Value.SetInt)), 1) == fst(strconv.ParseInt(val, fst(getBase(options, 10)), tp.Bits()))) && (err != nil ==> storesUnchanged())
-//@   ensures[C11] scalar && isUintKind(k) && snd(getBase(options, 10)) != nil ==> err == snd(getBase(options, 10)) && storesUnchanged()
-//@   ensures[C11] scalar && isUintKind(k) && snd(getBase(options, 10)) == nil ==> err == snd(strconv.ParseUint(val, fst(getBase(options, 10)), tp.Bits())) && (err == nil ==> ncalls(reflect.Value.SetUint) == old(ncalls(reflect.Value.SetUint)) + 1 && callarg(reflect.Value.SetUint, old(ncalls(reflect.Value.SetUint)), 0) == retval && callarg(reflect.Value.SetUint, old(ncalls(reflect.Value.SetUint)), 1) == fst(strconv.ParseUint(val, fst(getBase(options, 10)), tp.Bits()))) && (err != nil ==> storesUnchanged())
-//@   ensures[C11] scalar && isFloatKind(k) ==> err == snd(strconv.ParseFloat(val, tp.Bits())) && (err == nil ==> ncalls(reflect.Value.SetFloat) == old(ncalls(reflect.Value.SetFloat)) + 1 && callarg(reflect.Value.SetFloat, old(ncalls(reflect.Value.SetFloat)), 0) == retval && callarg(reflect.Value.SetFloat, old(ncalls(reflect.Value.SetFloat)), 1) == fst(strconv.ParseFloat(val, tp.Bits()))) && (err != nil ==> storesUnchanged())
+//@   ensures[C11,C01] um ==> err == snd(convertUnmarshal(val, retval)) && storesUnchanged()
+//@   ensures[C11,C01] !um && tp == durationT() ==> (err == snd(time.ParseDuration(val))) && (err == nil ==> ncalls(reflect.Value.SetInt) == old(ncalls(reflect.Value.SetInt)) + 1 && callarg(reflect.Value.SetInt, old(ncalls(reflect.Value.SetInt)), 0) == retval && callarg(reflect.Value.SetInt, old(ncalls(reflect.Value.SetInt)), 1) == int64(fst(time.ParseDuration(val)))) && (err != nil ==> storesUnchanged())
+//@   ensures[C11,C01] scalar && k == reflect.String ==> err == nil && ncalls(reflect.Value.SetString) == old(ncalls(reflect.Value.SetString)) + 1 && callarg(reflect.Value.SetString, old(ncalls(reflect.Value.SetString)), 0) == retval && callarg(reflect.Value.SetString, old(ncalls(reflect.Value.SetString)), 1) == val
+//@   ensures[C11,C01] scalar && k == reflect.Bool && val == "" ==> err == nil && ncalls(reflect.Value.SetBool) == old(ncalls(reflect.Value.SetBool)) + 1 && callarg(reflect.Value.SetBool, old(ncalls(reflect.Value.SetBool)), 1)
+//@   ensures[C11,C01] scalar && k == reflect.Bool && val != "" ==> err == snd(strconv.ParseBool(val)) && (err == nil ==> ncalls(reflect.Value.SetBool) == old(ncalls(reflect.Value.SetBool)) + 1 && callarg(reflect.Value.SetBool, old(ncalls(reflect.Value.SetBool)), 0) == retval && callarg(reflect.Value.SetBool, old(ncalls(reflect.Value.SetBool)), 1) == fst(strconv.ParseBool(val))) && (err != nil ==> storesUnchanged())
+//@   ensures[C11,C01] scalar && isIntKind(k) && snd(getBase(options, 10)) != nil ==> err == snd(getBase(options, 10)) && storesUnchanged()
+//@   ensures[C11,C01] scalar && isIntKind(k) && snd(getBase(options, 10)) == nil ==> err == snd(strconv.ParseInt(val, fst(getBase(options, 10)), tp.Bits())) && (err == nil ==> ncalls(reflect.Value.SetInt) == old(ncalls(reflect.Value.SetInt)) + 1 && callarg(reflect.Value.SetInt, old(ncalls(reflect.Value.SetInt)), 0) == retval && callarg(reflect.Value.SetInt, old(ncalls(reflect.Value.SetInt)), 1) == fst(strconv.ParseInt(val, fst(getBase(options, 10)), tp.Bits()))) && (err != nil ==> storesUnchanged())
+//@   ensures[C11,C01] scalar && isUintKind(k) && snd(getBase(options, 10)) != nil ==> err == snd(getBase(options, 10)) && storesUnchanged()
+//@   ensures[C11,C01] scalar && isUintKind(k) && snd(getBase(options, 10)) == nil ==> err == snd(strconv.ParseUint(val, fst(getBase(options, 10)), tp.Bits())) && (err == nil ==> ncalls(reflect.Value.SetUint) == old(ncalls(reflect.Value.SetUint)) + 1 && callarg(reflect.Value.SetUint, old(ncalls(reflect.Value.SetUint)), 0) == retval && callarg(reflect.Value.SetUint, old(ncalls(reflect.Value.SetUint)), 1) == fst(strconv.ParseUint(val, fst(getBase(options, 10)), tp.Bits()))) && (err != nil ==> storesUnchanged())
+//@   ensures[C11,C01] scalar && isFloatKind(k) ==> err == snd(strconv.ParseFloat(val, tp.Bits())) && (err == nil ==> ncalls(reflect.Value.SetFloat) == old(ncalls(reflect.Value.SetFloat)) + 1 && callarg(reflect.Value.SetFloat, old(ncalls(reflect.Value.SetFloat)), 0) == retval && callarg(reflect.Value.SetFloat, old(ncalls(reflect.Value.SetFloat)), 1) == fst(strconv.ParseFloat(val, tp.Bits()))) && (err != nil ==> storesUnchanged())
 //@   ensures is(err, *Error) ==> as(err, *Error) != nil
 //@   ensures !isTyped(err, ErrUnknownFlag)
 
@@ -1442,6 +1448,10 @@ package flags
 //@ func writeManPageCommand(wr io.Writer, name string, usagePrefix string, command *Command)
 //@   props C16 C04
 //@   requires command != nil
+// (the command's own header and, whenever it has any, its aliases are written - whether or not there is a usage line)
+//@   at[C16] call fmt.Fprintf ".SS %s\n": tick(hdr)
+//@   at[C16] call fmt.Fprintf "\n\\fBAliases\\fP: %s\n\n": len(command.Aliases) > 0 && tick(aliases)
+//@   ensures[C16] ticks(hdr) == 1 && (len(command.Aliases) > 0 ==> ticks(aliases) == 1)
 //@   ensures[C16] ncalls(writeManPageOptions) > old(ncalls(writeManPageOptions)) && callarg(writeManPageOptions, old(ncalls(writeManPageOptions)), 1) == command.Group
 //@   ensures[C16] ncalls(writeManPageSubcommands) > old(ncalls(writeManPageSubcommands)) && callarg(writeManPageSubcommands, old(ncalls(writeManPageSubcommands)), 3) == command
 
@@ -1937,7 +1947,19 @@ package flags
 // been found every option visited so far is the one registered under its
 // names, hence no two of them share a name.
 //@ pure func dupOpt(g *Group, J int, i int) *Option = iterelem(Group.eachGroup, g, J, 0).options[i]
+//@ assumed func reflect.ValueOf(i interface{}) (v reflect.Value)
+//@   pure
+// Every scan of a group's data ends with the duplicate check of THAT group, and its verdict is the result
+// (whoever the parent is: a group added with AddGroup is not scanned again by anybody else).
+//@ func (g *Group) scanType(handler scanHandler) (err error)
+//@   props C19 C04
+//@   requires g != nil && handler != nil
+//@   requires reflect.ValueOf(g.data).Type().Kind() == reflect.Ptr && reflect.ValueOf(g.data).Type().Elem().Kind() == reflect.Struct
+//@   let d0 := ncalls(Group.checkForDuplicateFlags)
+//@   ensures[C19] err == nil ==> ncalls(Group.checkForDuplicateFlags) == d0 + 1 && callarg(Group.checkForDuplicateFlags, d0, 0) == g && callres(Group.checkForDuplicateFlags, d0, 0) == nil
+//@   ensures[C19] ncalls(Group.checkForDuplicateFlags) == d0 + 1 && callres(Group.checkForDuplicateFlags, d0, 0) != nil ==> is(err, *Error) && as(err, *Error) == callres(Group.checkForDuplicateFlags, d0, 0)
 //@ func (g *Group) checkForDuplicateFlags() (r *Error)
+//@   traced
 //@   props C19 C04
 //@   requires g != nil
 //@   let root := g
